@@ -66,13 +66,19 @@ def firstFailure (p : Prob Rat) (x : List Rat) (tol : Rat) : Sexp :=
     | some (j, v, _) => .list [.atom "domain", .atom (toString j), encRat v]
     | none => .atom "shape"
 
-def checkSolution (lm : LinModel (Ext Rat)) (s : Solution (Ext Rat))
+/-- signature of the name-prefix defect of `as_lp_solution` (tableau simplex): a USER variable whose name starts with
+one of the internal prefixes (`$sl_`, `$su_`, `$a_`, `$p`, `$m`) is dropped or merged. -/
+def internalPrefix (n : String) : Bool :=
+  n.startsWith "$sl_" || n.startsWith "$su_" || n.startsWith "$a_" || n.startsWith "$p" || n.startsWith "$m"
+
+def checkSolution (lm : LinModel (Ext Rat)) (solver : String) (s : Solution (Ext Rat))
     (byname : List (String × Option (Val (Ext Rat)))) : Sexp :=
   match ofLinModel lm with
   | .error why => okS [.atom "skipped", .atom why]
   | .ok p =>
   match oneValuePerVariable lm s byname with
-  | some v => v
+  | some v =>
+    if solver == "simplex" && lm.vars.any internalPrefix then viol "internal-prefix-variable-lost" [v] else v
   | none =>
   match pointOf lm s with
   | .error v => v
@@ -142,6 +148,14 @@ def improvingRay (p : Prob Rat) : Bool :=
 
 /-! ### C05 -/
 
+/-- signature of the Satisfy/objective inconsistency: the model asks for ANY feasible point (`satisfy`) but carries
+non-zero objective coefficients, and minimising those coefficients (what the MILP wrapper hands to microlp) is
+genuinely unbounded — certified. The good_lp path ignores the coefficients of a `satisfy` model. -/
+def satisfyObjectiveUnbounded (p : Prob Rat) : Bool :=
+  p.sense == .satisfy && p.obj.any (· != 0) &&
+  (let s := solve { p with sense := .min }
+   s.certified && (match s.verdict with | .unbounded => true | _ => false))
+
 /-- error kinds by which an entry point declines a model it does not accept (not a verdict). -/
 def declines (variant : String) : Bool :=
   variant == "InvalidDomain" || variant == "UnimplementedOptimizationType" || variant == "UnavailableComparison"
@@ -161,12 +175,20 @@ def checkVerdict (lm : LinModel (Ext Rat)) (solver : String) (r : ImplRes (Ext R
     | .fin got => if close got v then okS [tag, encRat v] else viol "wrong-optimum" [.atom solver, encRat got, encRat v]
     | _ => viol "wrong-optimum" [.atom solver, .atom "non-finite", encRat v]
   | .ok _ _, .infeasible => viol "solution-for-infeasible-model" [.atom solver]
-  | .ok _ _, .unbounded => viol "solution-for-unbounded-model" [.atom solver]
+  | .ok s _, .unbounded =>
+    -- signature of the Clarabel defect: the interior-point iteration runs off along the improving ray (coordinates
+    -- ≥ 1e6 on data of magnitude ≤ 10) and is nevertheless reported as `Solved`
+    let huge : Bool := match pointOf lm s with
+      | .ok x => x.any (fun v => rabs v ≥ 1000000)
+      | .error _ => false
+    if solver == "clarabel" && huge then viol "clarabel-diverging-point-reported-solved" [.atom solver]
+    else viol "solution-for-unbounded-model" [.atom solver]
   | .err "Infeasible", .infeasible => okS [tag]
   | .err "Infeasible", _ => viol "infeasible-reported-for-feasible-model" [.atom solver, tag]
   | .err "Unbounded", .unbounded => okS [tag]
   | .err "Unbounded", .optimal _ v =>
-    if microlpBased && flatFreeDirection p then viol "microlp-flat-free-direction" [.atom solver, .atom "unbounded-reported", encRat v]
+    if microlpBased && satisfyObjectiveUnbounded p then viol "satisfy-objective-coefficients-optimised" [.atom solver]
+    else if microlpBased && flatFreeDirection p then viol "microlp-flat-free-direction" [.atom solver, .atom "unbounded-reported", encRat v]
     else viol "unbounded-reported-for-bounded-model" [.atom solver, encRat v]
   | .err "Unbounded", .infeasible =>
     if solver == "clarabel" && improvingRay p then viol "clarabel-dual-infeasible-reported-unbounded" [.atom solver]
@@ -214,7 +236,9 @@ def checkLabel (lm : LinModel (Ext Rat)) (o : MilpOpts) (r r0 : ImplRes (Ext Rat
   -- is the unlimited answer right?  (then a wrong limited answer is caused by the limit handling)
   let baselineRight : Bool :=
     match r0, sol.verdict with
-    | .ok s _, .optimal _ v => (match s.value with | .fin g => close g v | _ => false)
+    | .ok s _, .optimal _ v =>
+      if p.sense == .satisfy then (match pointOf lm s with | .ok x => checkPoint p x tol6 | .error _ => false)
+      else (match s.value with | .fin g => close g v | _ => false)
     | .err "Infeasible", .infeasible => true
     | .err "Unbounded", .unbounded => true
     | _, _ => false
@@ -250,7 +274,10 @@ def checkLabel (lm : LinModel (Ext Rat)) (o : MilpOpts) (r r0 : ImplRes (Ext Rat
       let g : Rat := match o.gap with | some (.fin g) => g | _ => 0
       -- microlp's relative gap: (incumbent − optimum) / max(|incumbent|, guard), in the direction of optimisation
       let diff := if p.sense == .max then v - got else got - v
-      if diff ≤ g * rmax (rabs got) (1 / 10000000000) + tol6 * rmax 1 (rabs v) then okS [.atom "optimal-label", encRat got, encRat v]
+      -- the denominator of a RELATIVE gap is not fixed by the property (|incumbent|, |optimum|, with or without the
+      -- constant offset — microlp measures on the offset-free objective): accept the label if ANY of them honours it
+      let denom := rmax (rmax (rabs got) (rabs v)) (rmax (rabs (got - p.offset)) (rabs (v - p.offset)))
+      if diff ≤ g * rmax denom (1 / 10000000000) + tol6 * rmax 1 (rabs v) then okS [.atom "optimal-label", encRat got, encRat v]
       else viol (cause "optimal-label-outside-gap") [encRat got, encRat v]
     | .optimal, _, _ => viol (cause "optimal-label-without-optimum") [.atom (verdictName sol.verdict)]
     | .feasible, _, _ => okS [.atom "feasible-label"]
